@@ -137,6 +137,21 @@ func VerifC17_commit_data() {
 		fromCommit = ndAnd(fromCommit, found)
 	}
 	ndAssert(fromCommit, "evm-registrations-come-only-from-commit-votes-with-initial-signatures")
+	// ... and in vote order: proposer and validators each recompute the list and compare it element by element, and
+	// PreBlocker writes the registrations in the listed order
+	inOrder, last := true, -1
+	for _, op := range iops {
+		p := -1
+		for i, v := range votes {
+			p = ndIteInt(op == v.op, i, p)
+		}
+		inOrder = ndAnd(inOrder, p > last)
+		last = p
+	}
+	ndAssert(inOrder, "evm-registrations-listed-in-vote-order")
+	if len(iops) == 2 {
+		ndReach("two-registrations")
+	}
 	ndReach("extracted")
 }
 
